@@ -86,6 +86,9 @@ fn search(prop: &str, seed: u64, n: u64, filter: &str) -> i32 {
     let mut rng = util::Rng::new(seed);
     let mut tried = 0u64;
     let mut distinct = std::collections::HashSet::new();
+    // failures listed as open known findings (substrings of the FAIL message, ';'-separated) are counted, not reported
+    let known: Vec<String> = std::env::var("REPLAY_KNOWN").unwrap_or_default().split(';').map(|s| s.to_string()).collect();
+    let mut known_hits = 0u64;
     for _ in 0..n {
         let cand: Vec<String> = match prop {
             "c12" => c12::gen(&mut rng),
@@ -104,12 +107,13 @@ fn search(prop: &str, seed: u64, n: u64, filter: &str) -> i32 {
         tried += 1;
         distinct.insert(cand.join(" "));
         if let Err(e) = run(&cand) {
+            if known.iter().any(|k| !k.is_empty() && e.contains(k.as_str())) { known_hits += 1; continue; }
             println!("WITNESS {}", cand.join(" "));
             println!("FAIL {}", e);
             println!("TRIED {} DISTINCT {}", tried, distinct.len());
             return 1;
         }
     }
-    println!("TRIED {} DISTINCT {}", tried, distinct.len());
+    println!("TRIED {} DISTINCT {} KNOWN {}", tried, distinct.len(), known_hits);
     0
 }
